@@ -27,10 +27,11 @@ Twice(s) == CHOOSE x \in ToSet(s) : \E a, b \in 1..Len(s) : a # b /\ s[a] = x /\
 
 FindVerdict(r) ==
   LET T == r.T
-      found == Found(T)
-      imp == SelectSeq(found, LAMBDA f : AcceptedAny(T, f))
+      W == Walks(T)
+      found == FoundIn(W)
+      imp == SelectSeq(found, LAMBDA f : AcceptedAny(T, W, f))
       may == ToSet(imp)
-      must == ToSet(SelectSeq(found, LAMBDA f : Accepted(T, f)))
+      must == ToSet(SelectSeq(found, LAMBDA f : Accepted(T, W, f)))
       obs == r.imported
       lst == r.listed
       fs == ToSet(found)
